@@ -20,7 +20,7 @@ def benign_summary():
     for f in sorted(glob.glob(os.path.join(ROOT, "benign", "results", "*.log"))):
         for ln in open(f, errors="replace"):
             m = re.match(r"(\S+\.diff) (C\d\d) rc=(\d+)", ln)
-            if m:
+            if m and m.group(3) != "9":      # rc=9: the patch did not apply to that snapshot (ported later): not a result
                 rows.setdefault(m.group(1), {})[m.group(2)] = int(m.group(3))   # later logs override earlier ones
     lines = ["| patch | checks run | exit 0 | other |", "|---|---|---|---|"]
     tot = ok = 0
